@@ -149,7 +149,7 @@ def check_case(chk, st, tr, F, interp, with_table, system, cell_opt, rng, sample
     mult = sample_mult or 1
     t0 = time.time()
     try:
-        df, proxy = X.run_single_path(lambda: run_callback(env, st, tr, F, interp, ntv, system, p_min, dp, dp * sample_mult if sample_mult else None), name="C18:" + name)
+        df, proxy = X.run_single_path(lambda: run_callback(env, st, tr, F, interp, ntv, system, p_min, dp, dp * sample_mult if sample_mult else None), name="C18:" + name, generic=True)
     except SymError as e:
         # an undecided guard stops the symbolic run: look at the real code on concrete data before calling it inconclusive
         replay_cli(chk, rng, "symbolic run stopped: %s" % e, interp)
